@@ -1,5 +1,6 @@
 import Lean.Data.Json
 import PynguinModel.Model.Cdg
+import PynguinModel.Model.CdgQueries
 /-! Line-protocol driver for C06 (and the CDG part reused by C07). -/
 open Lean PynguinModel.Cdg
 
@@ -48,6 +49,7 @@ def runCase (c : Case) : Json :=
     ("cdg", Json.arr ((sortTriples g).map tripleJ).toArray),
     ("treeOK", toJson (treeOKb tbl)),
     ("labelConsistent", toJson (labelConsistentb algo)),
+    ("uniform", toJson (uniformb g isBlock)),
     ("pdomPairs", toJson (if c.certs then c.nodes.length * c.nodes.length else 0)),
     ("pdomBad", Json.arr (bad.map (fun x => Json.arr #[toJson x.1, toJson x.2.1, toJson x.2.2])).toArray),
     ("deps", Json.arr (gnodes.map (fun n =>
